@@ -201,6 +201,8 @@ struct State {
     violations: Vec<(String, String, String, PathBuf)>, // sub, sig, detail, replay path
     extra: BTreeMap<String, J>,
     inconclusive: Vec<String>,
+    /// triage mode (VERIF_COLLECT=1): unknown signatures with count and first detail, search does not stop
+    collected: BTreeMap<String, (u64, String)>,
 }
 
 pub struct Check {
@@ -217,6 +219,11 @@ pub struct Check {
     stop: AtomicBool,
     start: Instant,
     threads: usize,
+}
+
+fn collect_mode() -> bool {
+    static M: std::sync::OnceLock<bool> = std::sync::OnceLock::new();
+    *M.get_or_init(|| std::env::var("VERIF_COLLECT").is_ok())
 }
 
 pub fn hash_str(s: &str) -> u64 {
@@ -379,6 +386,10 @@ impl Check {
                         e.0 += 1;
                     }
                     None
+                } else if collect_mode() {
+                    let e = st.collected.entry(sig).or_insert((0, detail));
+                    e.0 += 1;
+                    None
                 } else {
                     Some((sig, detail))
                 }
@@ -391,6 +402,9 @@ impl Check {
                             let e = st.known_hits.entry(sig.clone()).or_insert((0, text.to_string()));
                             e.0 += 1;
                         }
+                    } else if collect_mode() {
+                        let e = st.collected.entry(sig).or_insert((0, detail));
+                        e.0 += 1;
                     } else if unknown.is_none() {
                         unknown = Some((sig, detail));
                     }
@@ -655,6 +669,12 @@ impl Check {
             println!("KNOWN-FINDING: property={} sig={} hits={} {}", self.id, sig, n, text);
         }
         let mut code = 0;
+        if !st.collected.is_empty() {
+            for (sig, (n, d)) in &st.collected {
+                println!("COLLECTED sig={} count={} first: {}", sig, n, truncate(d, 1200));
+            }
+            code = 1;
+        }
         if !st.inconclusive.is_empty() {
             for w in &st.inconclusive {
                 println!("INCONCLUSIVE property={} {}", self.id, w);
